@@ -57,8 +57,12 @@ class AdaptationSet(ModelMixin["AdaptationSet"], Base):
     def media_files(self, encrypted: bool | None = None) -> Iterable[MediaFile]:
         if self.period.stream is None:
             return []
-        stmt = db.select(MediaFile).filter_by(
+        base = db.select(MediaFile).filter_by(
             stream_pk=self.period.stream.pk, track_id=self.track_id)
+        if self.content_type.name in {'video', 'audio', 'text'}:
+            # the stream might have files of another type with this track ID
+            base = base.filter_by(content_type=self.content_type.name)
+        stmt = base
         if encrypted is not None:
             stmt = stmt.filter_by(encrypted=encrypted)
         empty: bool = True
@@ -66,9 +70,7 @@ class AdaptationSet(ModelMixin["AdaptationSet"], Base):
             empty = False
             yield cast(MediaFile, row[0])
         if empty and encrypted:
-            stmt = db.select(MediaFile).filter_by(
-                stream_pk=self.period.stream.pk, track_id=self.track_id,
-                encrypted=False)
+            stmt = base.filter_by(encrypted=False)
             for row in db.session.execute(stmt):
                 yield cast(MediaFile, row[0])
 
